@@ -5,9 +5,8 @@
 //! handle yields, with the clauses of `oracle.rs`; rule ids carry the prefix `cli-`.
 //!
 //! `DnssecClient` is hard-wired to `TokioRuntimeProvider`, whose `Timer::current_time()` is the
-//! wall clock: the hierarchy is therefore re-based so that every signature window lies around the
-//! wall-clock time of the run (keys, zone data, queries and faults are those of the case; a witness
-//! is re-based again when it is replayed).
+//! wall clock: the hierarchy is therefore signed with windows [inception, inception + 50 years]
+//! (keys, zone data, queries and faults are those of the case), see `widen`.
 #![allow(dead_code)]
 
 use std::collections::VecDeque;
@@ -42,19 +41,14 @@ fn peer() -> SocketAddr {
     "192.0.2.53:53".parse().unwrap()
 }
 
-/// the hierarchy with its clock and signature windows moved to the wall clock
-pub fn rebase(h: &Hier, recorded_at: Option<u32>) -> Hier {
-    let wall = std::time::SystemTime::now().duration_since(std::time::UNIX_EPOCH).map(|d| d.as_secs()).unwrap_or(0) as u32;
-    // a witness is replayed with the windows it was recorded with while the wall clock is still inside
-    // them (records embedded in its faults then stay byte-identical to what the signer produces)
-    let now = match recorded_at {
-        Some(at) if wall >= at && wall < at.saturating_add(12 * 86_400) => at,
-        _ => wall,
-    };
+/// The hierarchy with every signature window widened to [inception, inception + 50 years]: the
+/// windows of the generated hierarchies lie around the harness' virtual clock (2023), the client
+/// judges them on the wall clock. 50 years stay below the 2^31 s that RFC 1982 serial arithmetic can
+/// order, and the wall clock stays inside for as long as a witness is of interest, so a witness
+/// (which carries records signed for these windows inside its faults) replays unchanged.
+pub fn widen(h: &Hier) -> Hier {
     let mut h2 = h.clone();
-    h2.now = now;
-    h2.inception = now.saturating_sub(86_400);
-    h2.expiration = now.saturating_add(14 * 86_400);
+    h2.expiration = h.inception.saturating_add(50 * 365 * 86_400);
     h2
 }
 
@@ -187,7 +181,7 @@ pub fn run_steps(attacker: &Arc<Attacker>, b: &Bench, steps: &[Step]) -> Result<
 pub struct CJudge<'a> {
     pub rep: &'a mut Reporter,
     pub attacker: Arc<Attacker>,
-    /// the hierarchy as generated (the witness carries it un-rebased; replay re-bases)
+    /// the hierarchy as generated (the witness carries it as generated; replay widens it again)
     pub hier_json: Value,
     pub hier_hash: u64,
 }
@@ -355,7 +349,7 @@ impl CJudge<'_> {
                         }
                         Err(e) => (json!(e), vec![]),
                     };
-                    let case = json!({"mode": "cli", "rebased_now": b.truth().hier.now, "hier": self.hier_json, "steps": min_steps.iter().map(|s| s.to_json()).collect::<Vec<_>>(), "workload": workload, "note": "signature windows are re-based to the wall clock of the run"});
+                    let case = json!({"mode": "cli", "hier": self.hier_json, "steps": min_steps.iter().map(|s| s.to_json()).collect::<Vec<_>>(), "workload": workload, "note": "signature windows are widened to inception + 50 years (the client reads the wall clock)"});
                     self.rep.violation(&format!("cli-{}", a.rule), &sig, case, a.expected.clone(), json!({"alarm": a.observed, "outcome": obs_json, "upstream_exchanges": ex_json}));
                 }
             }
@@ -372,7 +366,7 @@ pub struct CParams {
 
 /// `h`: the hierarchy as generated; `queries`: the hierarchy's query list
 pub fn workload(rep: &mut Reporter, attacker: &Arc<Attacker>, h: &Hier, hier_hash: u64, queries: &[QueryCase], attacker_tags: &[u16], p: &CParams) {
-    let b = Bench::new(&rebase(h, None));
+    let b = Bench::new(&widen(h));
     let mut j = CJudge { rep, attacker: attacker.clone(), hier_json: h.to_json(), hier_hash };
     let mut rng = Rng::new(hier_hash ^ fnv64(b"cli/queries"));
     let mut qs: Vec<QueryCase> = queries.to_vec();
@@ -439,7 +433,7 @@ pub fn replay(rep: &mut Reporter, attacker: &Arc<Attacker>, h: &Hier, c: &Value)
         eprintln!("bad replay case: no steps");
         return;
     }
-    let b = Bench::new(&rebase(h, c["rebased_now"].as_u64().map(|x| x as u32)));
+    let b = Bench::new(&widen(h));
     let mut j = CJudge { rep, attacker: attacker.clone(), hier_json: h.to_json(), hier_hash: fnv64(h.to_json().to_string().as_bytes()) };
     match run_steps(attacker, &b, &steps) {
         Ok(results) => j.judge(&b, &steps, &results, "replay"),
